@@ -260,3 +260,8 @@ def shift_layer(seed: int, n_cases: int) -> Dict[str, Any]:
 def cosim_layer(seed: int, n_cases: int) -> Dict[str, Any]:
     """packaged scenarios advanced by split co-simulation calls, one call, the batch runner and single steps (C15)"""
     return generic_layer("cosim", "cosim", seed, n_cases, 67867979)
+
+
+def dispatch_layer(seed: int, n_cases: int) -> Dict[str, Any]:
+    """the real trip dispatcher on mixed states, every assignment certified (C12; dispatcher clauses of C10, C17, C20)"""
+    return generic_layer("dispatch", "dispatch", seed, n_cases, 15487469)
